@@ -75,6 +75,11 @@ func fsResp(status int, body []byte) *http.Response {
 }
 
 func newFullStack(n, localMask int, segLimit int64, mhLen int) *fsWorld {
+	return newFullStackField(n, localMask, segLimit, mhLen, "PreviousID")
+}
+
+// the same world with blocks chained through the given link field ("Next": an entries chain)
+func newFullStackField(n, localMask int, segLimit int64, mhLen int, field string) *fsWorld {
 	multicodec.RegisterEncoder(cid.DagCBOR, dagcbor.Encode)
 	multicodec.RegisterDecoder(cid.DagCBOR, dagcbor.Decode)
 	lp := cidlink.LinkPrototype{Prefix: cid.Prefix{Version: 1, Codec: cid.DagCBOR, MhType: multihash.SHA2_256, MhLength: mhLen}}
@@ -87,7 +92,7 @@ func newFullStack(n, localMask int, segLimit int64, mhLen int) *fsWorld {
 		nd := fluent.MustBuildMap(basicnode.Prototype.Map, 2, func(na fluent.MapAssembler) {
 			na.AssembleEntry("ContextID").AssignString(string(rune('a' + i)))
 			if p != nil {
-				na.AssembleEntry("PreviousID").AssignLink(p)
+				na.AssembleEntry(field).AssignLink(p)
 			}
 		})
 		l, err := publs.Store(ipld.LinkContext{}, lp, nd)
